@@ -30,6 +30,6 @@ Example C20_example :
   eval_value 64 sc [VVar $"@d"] = ROk [$"1px"] /\ eval_value 64 sc [VVar $"@a"] = RFuel.
 Proof.
   cbv zeta. split; [|split; [|split; vm_compute; reflexivity]].
-  - intros x [H|[H|H]]; subst x; (split; [exact I|]); eexists; (split; [|reflexivity]); auto.
-  - apply chain_step with (y := $"@e"); [exact I|reflexivity|]. apply (chain_end _ $"@e" [VT $"1px"]); [exact I|reflexivity|reflexivity].
+  - intros x [H|[H|H]]; subst x; (split; [split; [exact I|reflexivity]|]); eexists; (split; [|reflexivity]); auto.
+  - apply chain_step with (y := $"@e"); [split; [exact I|reflexivity]|reflexivity|]. apply (chain_end _ $"@e" [VT $"1px"]); [split; [exact I|reflexivity]|reflexivity|reflexivity].
 Qed.
